@@ -50,7 +50,7 @@ REQUIRED_CLAUSES = ["offset==iers", "offset.before-1972==0",
                     "readback.utc", "override.offset", "override.readback",
                     "leap_seconds==iers", "leap_seconds.monotone",
                     "last_leap_second", "deltat.band-1972-2018",
-                    "deltat.joints"]
+                    "deltat.joints", "deltat.smooth-between-joints"]
 
 
 def shards(tier, seed):
@@ -328,6 +328,7 @@ def case_table(mon):
 
 def case_deltat(mon):
     from pymeeus.Epoch import Epoch
+    table = {}
     for y in range(-2000, 3001):
         for m in range(1, 13):
             mon.evals += 1
@@ -336,6 +337,7 @@ def case_deltat(mon):
             except Exception as ex:
                 mon.dev("deltat.finite", {"ym": [y, m], "raised": repr(ex)})
                 continue
+            table[(y, m)] = dt
             mon.check("deltat.finite", isinstance(dt, float)
                       and dt == dt and abs(dt) < 1e6,
                       {"ym": [y, m], "deltat": dt})
@@ -346,6 +348,27 @@ def case_deltat(mon):
                          [y, m])
                 mon.check("deltat.band-1972-2018", abs(dt - ref) <= 3.5,
                           {"ym": [y, m], "deltat": dt, "42.184+leap": ref})
+    # the joints are where the published list says and nowhere else: between
+    # two published joints Delta-T is one smooth polynomial, so three
+    # successive Januaries (Junes, Decembers) inside one segment have a second
+    # difference below the 1 s allowed at a joint (0.41 s at most on the
+    # unchanged tree, in the steep 1860-1900 polynomial); a joint
+    # that has wandered off its year shows here with its full jump
+    bounds = [-500] + list(JOINTS) + [3001]
+    for lo, hi in zip(bounds, bounds[1:]):
+        for y in range(lo + 1, hi - 1):
+            for m in (1, 6, 12):
+                if all((yy, m) in table for yy in (y - 1, y, y + 1)):
+                    d2 = abs(table[(y + 1, m)] - 2.0 * table[(y, m)]
+                             + table[(y - 1, m)])
+                    mon.stat("deltat second difference inside a segment s",
+                             d2, [y, m])
+                    mon.check("deltat.smooth-between-joints", d2 < 1.0,
+                              lambda: {"segment": [lo, hi], "year": y,
+                                       "month": m, "values": [
+                                           table[(y - 1, m)], table[(y, m)],
+                                           table[(y + 1, m)]],
+                                       "second_difference_s": d2})
     for j in JOINTS:
         mon.evals += 2
         a = Epoch.tt2ut(j - 1, 12)
